@@ -54,16 +54,16 @@ func c11Ops() []histOp {
 		{"read-X0", Print("X[0]"), false}, {"read-Ylast", Print("Y[" + L("Y") + " - 1]"), false}, {"read-negzero", Print("X[-0]"), false},
 		// faulting steps
 		{"read-neg", Print("X[-1]"), true}, {"read-len", Print("X[" + L("X") + "]"), true}, {"read-frac", Print("X[1.5]"), true},
-		{"read-str", Print(`X["x"]`), true}, {"read-nil", Print("X[nil]"), true}, {"read-bool", Print("X[" + True() + "]"), true},
+		{"read-str", Print(`X["x"]`), true}, {"read-str-numeric-prefix", Print(`X["0th"]`), true}, {"read-str-numeric-prefix-bn", Print("X[\"\u09e7 \u09a8\u09ae\u09cd\u09ac\u09b0\"]"), true}, {"read-nil", Print("X[nil]"), true}, {"read-bool", Print("X[" + True() + "]"), true},
 		{"read-huge", Print("X[9223372036854775808]"), true}, {"read-inf", Print("X[10 ** 400]"), true},
 		{"read-2^32", Print("X[4294967296]"), true}, {"read-2^32+1", Print("X[4294967297]"), true}, {"read-neg-2^32-1", Print("X[0 - 4294967295]"), true},
 		{"read-2^31", Print("X[2147483648]"), true}, {"read-2^53", Print("X[9007199254740992]"), true}, {"read-1e18+1", Print("X[1000000000000000001]"), true}, {"read-2^64", Print("X[18446744073709551616]"), true},
 		{"write-2^32", "X[4294967296] = %f;", true}, {"write-2^32+1", "Y[4294967296 + 0] = %f;", true}, {"write-neg-2^32", "X[0 - 4294967296] = %f;", true}, {"write-2^64+1", "X[18446744073709551617] = %f;", true},
 		{"remove-2^32", "T = " + rm("X", "4294967296") + ";", true}, {"remove-2^32+1", "T = " + rm("X", "4294967297") + ";", true}, {"remove-neg-2^32", "T = " + rm("X", "0 - 4294967295") + ";", true},
-		{"write-nil-high", "X[" + L("X") + "] = nil;", true}, {"write-nil-neg", "X[-1] = nil;", true}, {"write-nil-frac", "X[1.5] = nil;", true}, {"write-nil-str", `X["x"] = nil;`, true}, {"write-nil-nonarray", "box[0] = nil;", true},
+		{"write-nil-high", "X[" + L("X") + "] = nil;", true}, {"write-nil-neg", "X[-1] = nil;", true}, {"write-nil-frac", "X[1.5] = nil;", true}, {"write-nil-str", `X["x"] = nil;`, true}, {"write-str-numeric-prefix", `X["1st"] = 5;`, true}, {"write-nil-nonarray", "box[0] = nil;", true},
 		{"write-neg", "X[-1] = %f;", true}, {"write-len", "X[" + L("X") + "] = %f;", true}, {"write-frac", "Y[0.5] = %f;", true}, {"write-str", `Y["x0"] = %f;`, true},
 		{"remove-len", "T = " + rm("X", L("X")) + ";", true}, {"remove-neg", "T = " + rm("X", "-1") + ";", true}, {"remove-frac", "T = " + rm("X", "0.5") + ";", true},
-		{"remove-str", "T = " + rm("X", `"x"`) + ";", true}, {"remove-nonarray", "T = " + rm("5", "0") + ";", true},
+		{"remove-str", "T = " + rm("X", `"x"`) + ";", true}, {"remove-str-numeric-prefix", "T = " + rm("X", `"0 kg"`) + ";", true}, {"remove-nonarray", "T = " + rm("5", "0") + ";", true},
 		{"append-nonarray", "T = " + ap("box", "1") + ";", true}, {"len-nonarray", Print(L("box")), true},
 	}
 	return ops
